@@ -416,6 +416,24 @@ def run(tier, seed, replay):
             cases.append(c)
         for toks, q, stdin in REGRESSION:
             cases.append({"argv": render_args(toks, q), "stdin": stdin, "lib": {"query": q}, "args": toks, "fam": "L"})
+        # deep values under every indentation: lines indented by more than the encoder's constant runs of blanks (32 spaces / 16 tabs) and by
+        # several doublings beyond them (the command has its own copy of the indent writer)
+        def nested(d, kind):
+            if kind == "arr":
+                return "[" * d + "0" + "]" * d
+            if kind == "obj":
+                return '{"a":' * d + "[]" + "}" * d
+            return '[{"k":' * (d // 2) + '[1,"x"]' + "}]" * (d // 2)
+        deep = [(("--indent", "9"), 11), (("--indent", "9"), 12), (("--indent", "9"), 4), (("--indent", "9"), 8), (("--indent", "9"), 30), (("--indent", "7"), 14), (("--indent", "7"), 19), (("--indent", "5"), 20), (("--indent", "3"), 33),
+                ((), 17), ((), 33), ((), 49), ((), 50), ((), 65), ((), 100), (("--tab",), 17), (("--tab",), 33), (("--tab",), 49), (("--tab",), 50), (("--tab",), 70), (("--indent", "1"), 70), (("--indent", "1"), 104), (("-c",), 100)]
+        for fl, d in deep:
+            for kind in ("arr", "obj", "mix"):
+                if quick and kind != "arr" and r.randrange(3):
+                    continue
+                d = min(d, {"arr": 104, "obj": 50, "mix": 66}[kind])      # the JSON reader of TLC stops at 255 levels of its own nesting (2 to 4 per level of the value)
+                toks = A(*fl, "Q")
+                q, stdin = r.choice([(".", nested(d, kind) + "\n"), (".", nested(d, kind) + " 1 " + nested(d, kind)), ("., [.]", nested(d - 1, kind)), ("reduce range(%d) as $i (.; [.])" % (d - 2), "[null]" if kind == "arr" else '{"a":[1]}')])
+                cases.append({"argv": render_args(toks, q), "stdin": stdin, "lib": {"query": q}, "args": toks, "fam": "L"})
         for i, c in enumerate(cases):
             c["id"] = i
         step = 6000
